@@ -22,7 +22,7 @@ KEY = {1: "reject/bracketed-anytrait", 2: "accept/outside-documented-language", 
        4: "meaning/paths-or-notify", 5: "compile-error/distinct-paths", 6: "reject/documented-string",
        7: "spelling/acceptance-differs", 8: "spelling/graphs-differ", 9: "spelling/python-eq-false",
        10: "spelling/hash-differs", 11: "exception/not-ValueError", 12: "equality/different-patterns-compare-equal",
-       13: "cache/answer-changes-between-calls"}
+       13: "cache/answer-changes-between-calls", 14: "entry-points/parse-and-compile_str-disagree"}
 _W = re.compile(r"\w")
 
 
@@ -68,7 +68,8 @@ def to_term(case, ob):
     if case["kind"] == "expr":
         return C("ExprC", expr_term(case["e"]), outcome_term(ob))
     if case["kind"] == "single":
-        return C("Single", text_term(case["s"]), outcome_term(ob), bool(ob.get("stable", True)))
+        return C("Single", text_term(case["s"]), outcome_term(ob), bool(ob.get("stable", True)),
+                 bool(ob.get("agree", True)))
     return C("Pair", bool(case.get("same", True)), text_term(case["s1"]), text_term(case["s2"]), outcome_term(ob["o1"]), outcome_term(ob["o2"]),
              bool(ob["pyeq"]), bool(ob["hasheq"]))
 
@@ -555,7 +556,7 @@ def run_grid(ctx, shards, tag, per_file=1):
 
 
 def windows(rnd, L, n):
-    top = 12 ** L
+    top = enc.BASE ** L
     return [dict(L=L, start=rnd.randrange(0, top - 1000), bs=1000, nb=1) for _ in range(n)]
 
 
@@ -571,7 +572,7 @@ def run(ctx):
         "(sampled); a digest collision (63 bit) could hide a disagreement inside a grid block",
         "Uint63 primitive integers are used by C15/Corr.v for the grid digests only (no theorem depends on them)",
     ]
-    ctx.cov["rule"] = ("exhaustive strings over the 12-symbol alphabet {a b items + * . : , [ ] space e-acute} (quick: all "
+    ctx.cov["rule"] = ("exhaustive strings over the 13-symbol alphabet {a b items + * . : , [ ] space e-acute 1} (quick: all "
                        "lengths <= 5 and random windows of lengths 6-8; thorough: all lengths <= 6 and more windows), "
                        "compared through block digests of the full compile_str outcome (reject / compile error / graphs "
                        "with every node field), the law evaluated on every string; plus embedded cases: corpus, random "
@@ -596,13 +597,26 @@ def run(ctx):
     for c in cases[:2] + cases[-2:]:
         ctx.sample(c)
     run_cases(ctx, cases, "cases", "C15.Corr.corr_codes (Model.compile_str = parse/compile_str on every text)")
-    # exhaustive grids
+    # exhaustive grids: lengths <= 5 always; thorough: length 6 in seed-shuffled batches while the time budget lasts
     shards = []
-    top = 5 if quick else 6
-    for L in range(0, top + 1):
-        shards += grid_shards(L, 0, 12 ** L)
+    for L in range(0, 6):
+        shards += grid_shards(L, 0, enc.BASE ** L)
     t1 = time.time()
-    run_grid(ctx, shards, "exhaustive_le_%d" % top, per_file=1 if quick else 4)
+    run_grid(ctx, shards, "exhaustive_le_5", per_file=1 if quick else 4)
+    top, done6, all6 = 5, 0, 0
+    if not quick:
+        s6 = grid_shards(6, 0, enc.BASE ** 6)
+        all6 = len(s6)
+        rnd.shuffle(s6)
+        k = 0
+        while k < len(s6) and time.time() - ctx.t0 < 400 and not ctx.violations:
+            run_grid(ctx, s6[k:k + 64], "exhaustive_6_%03d" % (k // 64), per_file=4)
+            k += 64
+        done6 = min(k, len(s6))
+        top = 6 if done6 == all6 else 5
+        if done6 < all6:
+            ctx.notes.append("machine slow: %d of %d shards (20 000 strings each, seed-shuffled) of length 6 evaluated "
+                             "within the time budget" % (done6, all6))
     t2 = time.time()
     win = []
     budget_left = (80 if quick else 690) - (time.time() - ctx.t0)
@@ -615,6 +629,7 @@ def run(ctx):
     ctx.cov["timing_s"] = dict(embedded_cases=round(t1 - t0, 1), exhaustive_grid=round(t2 - t1, 1),
                                windows=round(time.time() - t2, 1))
     ctx.cov["exhaustive"] = True
-    ctx.cov["exhaustive_bound"] = "all strings of length <= %d over the 12-symbol alphabet (%d strings)" % (
-        top, sum(12 ** L for L in range(top + 1)))
+    ctx.cov["exhaustive_bound"] = "all strings of length <= %d over the 13-symbol alphabet (%d strings)%s" % (
+        top, sum(enc.BASE ** L for L in range(top + 1)),
+        "" if quick or done6 == all6 else " + %d of %d shards of length 6" % (done6, all6))
     proof_gate(ctx, ok, log, PROPS)
